@@ -90,6 +90,41 @@ def predicate (S : Spec.SW.Scheme) (s1 s2 : Seq) (tiny : Bool) (f : List (String
       else "pass"
   | _, _, _, _, _, _, _, _, _, _, _ => "fail:unparsable-result"
 
+/-! ### attribution of a failure of the shipped code to a recorded finding
+
+Closed set of classifiers, each a decidable predicate on the input, evaluated on the shipped-code
+model (the driver separately insists that this model reproduces the implementation's result):
+
+* `empty-sequence`  — one of the sequences is empty;
+* `border-max`      — some cell of the first row or column of the shipped matrix holds a value
+                      greater than the tracked maximum (the running maximum skips the borders);
+* `border-trace`    — the shipped stop rule lets the trace-back enter a non-positive border cell:
+                      re-running the trace-back on the same matrices with the repaired stop rule
+                      gives a different alignment;
+* `maxa-init`       — `maxa[j]` is initialised with the *extension* penalty because the first row
+                      holds a horizontal gap (`trace[0][j-1] == LEFT`) and there is a second row.
+
+A failure is attributed only if, in addition, the repaired model satisfies the whole predicate on
+the same input (so the border logic is what separates failure from success).  Anything else stays
+an unattributed `fail:<clause>`. -/
+def attributeFailure (a : Aligner) (S : Spec.SW.Scheme) (s1 s2 : Seq) (tiny : Bool) : Option String :=
+  if s1.isEmpty || s2.isEmpty then some "empty-sequence" else
+  match seqToIndices a s1, seqToIndices a s2 with
+  | some i1, some i2 =>
+    let repairedOk := predicate S s1 s2 tiny (fields (render 1 (align a true s1 s2))) == "pass"
+    if !repairedOk then none else
+    let f := fill a false (s1.zip i1) (s2.zip i2)
+    let borderMax := (f.rows.headD []).any (fun c => c.val > f.best.score) ||
+      f.rows.any (fun r => (r.headD default).val > f.best.score)
+    let bt (fx : Bool) := backTrack fx a.gapopen a.gapextend f.m f.t s1 s2 f.best.score f.best.i f.best.j
+    let row0 := f.rows.headD []
+    let maxaInit := decide (f.rows.length ≥ 2) && (row0.take (row0.length - 1)).any (fun c => c.tr == Dir.left)
+    if borderMax then some "border-max"
+    else if bt false != bt true then some "border-trace"
+    else if maxaInit then some "maxa-init"
+    else none
+  | _, _ => none
+
 def optInt (s : String) : Option (Option Int) :=
   if s == "d" then some none else (parseInt? s).map some
 
@@ -112,14 +147,23 @@ def handle : Handler := fun op args impl =>
     let kind := (impl.splitOn " ").headD ""
     let inScope := DyadicScheme a s1.length s2.length && decide (a.gapextend < 0) &&
       decide (a.gapopen ≤ a.gapextend) && (mode != "mm" || (decide (a.matchS > 0) && decide (a.mismatch < 0)))
+    let tiny := s1.length ≤ 3 && s2.length ≤ 3
+    let scheme := specScheme mode den a.matchS a.mismatch a.gapopen a.gapextend s1 s2
     let verdict :=
       if !inScope then "na"
       else if kind == "err" then "na"
       else if kind == "ok" then
-        match specScheme mode den a.matchS a.mismatch a.gapopen a.gapextend s1 s2 with
+        match scheme with
         | none => "fail:accepted-foreign-residue"
-        | some S => predicate S s1 s2 (s1.length ≤ 3 && s2.length ≤ 3) f
+        | some S => predicate S s1 s2 tiny f
       else "fail:panic"
+    -- a failure of the shipped code is tagged with the recorded finding that explains it, if any
+    let verdict :=
+      if verdict.startsWith "fail:" && v == 0 then
+        match scheme.bind fun S => attributeFailure a S s1 s2 tiny with
+        | some w => verdict ++ "@" ++ w
+        | none => verdict
+      else verdict
     some ⟨model, verdict⟩
   | _, _ => none
 
